@@ -9,7 +9,13 @@ TABLES = ['CodecsT', 'HeadersT', 'PercentT']
 COQ_HEADER = 'From Httoop Require Import Lib.Bytes Lib.Variant Gen.CodecsT Model.Headers Model.Codecs Corr.C14.'
 COQ_CHECK = 'check'
 CORR_VO = 'Corr/C14.vo'
-RULE = ('Input classes of the third wave, all checked by the oracle on the real code, the coded-wire ones also by the model (CBodyDec on the coded octets): the coded octets of a message '
+RULE = ('Input classes of the fifth wave (kind w5 and new inputs of the existing kinds; oracle on the real code, expectations from Python\'s standard library or from a fresh object): text and a media type that declares a charset '
+	'(24 charset labels, 6 spellings of the parameter) handed over through 18 ways of the API (constructor positional / keyword / octets / element, attribute, encoding, field, set, encode, message, message constructor, Body(Body), lists and generators of text), coded, as a multipart part and through the wire; '
+	'the same octets as bytes / bytearray / list / tuple / iterator / generator / map / chain / deque / dict / file objects, bytes-like arguments of the coding codecs, receive buffers as bytes / bytearray / memoryview / one reused bytearray; pairs, values and parts as every container type with insertion order; '
+	'objects built from one argument object (Body, bytearray, list, value, mapping, part list, media type element, Headers) changed independently; refused operations (unencodable text, unserialisable value, damaged coded / multipart / embedded data, closed file, non-iterable) followed by further use and compared with an untouched twin; '
+	'content, media type, coding and Content-Encoding field set in all 24 orders on both message kinds; parts, embedded messages and coded bodies built in several orders of calls, gzip level as class attribute; repeated non-adjacent field lines, list members / pairs / parts unsorted, repeated, reverse-sorted (expectation taken from the case); '
+	'contents whose Adler-32 / CRC-32 / length field ends in white space, NUL or CR LF (searched directly; one and several 4096-octet pieces), stored blocks and gzip headers that contain chunk and header syntax; lengths 2^k (k = 9..16), multiples of the piece size and +-1 for contents and for encoded forms; the deflate window. '
+	'Input classes of the third wave, all checked by the oracle on the real code, the coded-wire ones also by the model (CBodyDec on the coded octets): the coded octets of a message '
 	'(one stream per piece as the library composes, Body.compress(), CPython at levels 0/6/9, a gzip member with file name and time stamp, several members) framed by the harness with Content-Length '
 	'or cut into chunks of 1, 2, 5, 16, 17, 512, 1024, 4096 octets, at the first / last octet and at random places, chunk extensions, upper-case and padded chunk sizes, trailers, header names in three letter '
 	'cases, other field orders, a folded coding name, received at once or in pieces, by both machines; several coded and uncoded messages on one machine; Body / part / message objects used twice, read in '
@@ -353,7 +359,7 @@ def _weight(c):
 	"""size of the octet strings of a case that become Coq literals"""
 	if c['k'] in ('http_rt', 'mp_enc'):
 		return len(c.get('body', '')) + 2 * len(c.get('uri', '')) + sum(len(v) + 2 * len(k) for k, v in c.get('hs', [])) + sum(len(content) + sum(len(v) for _, v in hs) for hs, content in c.get('ps', []))
-	if c['k'] in ('mp_rt', 'plain_rt', 'json_rt', 'form_rt', 'state', 'wire_seq'):
+	if c['k'] in ('mp_rt', 'plain_rt', 'json_rt', 'form_rt', 'state', 'wire_seq', 'w5') or c.get('oo'):
 		return 0    # oracle only
 	return len(c.get('d', ''))
 
@@ -505,6 +511,7 @@ def _gen_cases(rng, tier):
 		cases.append({'k': 'http_dec', 'd': out.hex()})
 	cases.extend(_special_cases(rng, big))
 	cases.extend(_class_cases(rng, big))
+	cases.extend(_wave5_cases(rng, big))
 	return cases
 
 
@@ -1033,6 +1040,8 @@ def observe(c):
 			return _observe_wire_seq(c)
 		if k == 'state':
 			return {'checks': _STATE[c['s']](c)}
+		if k == 'w5':
+			return {'checks': _W5[c['s']](c)}
 		if k == 'plain_dec':
 			try:
 				lookup('text/plain').decode(bytes.fromhex(c['d']), c['cs'])
@@ -1265,6 +1274,9 @@ def _payload(c):
 		with gzip.GzipFile(filename='report final.txt', fileobj=out, mode='wb', compresslevel=1, mtime=1234567890) as fd:
 			fd.write(d)
 		return out.getvalue()
+	if enc == 'mtime_ws' and fam == GZ:
+		import gzip
+		return gzip.compress(d, 1, mtime=0x0a0d0a0d)    # the time stamp of the member header reads CR LF CR LF
 	if enc == 'multi':
 		k = max(1, len(d) // 3)
 		return b''.join(_comp(fam, d[i:i + k]) for i in range(0, len(d), k)) or _comp(fam, d)
@@ -1347,7 +1359,7 @@ def _observe_wire_rf(c):
 	payload = _payload(c)
 	wire = _head(c['req'], c.get('cn', c['c']), c['cs'], c['fr'], len(payload), c['hv'], c.get('tr')) + _frame(payload, c['fr'], c.get('ext'), c.get('fmt', '%x'), c.get('tr'))
 	res = {'payload': payload.hex() if len(payload) < 20000 else None, 'wire': len(wire)}
-	msgs, err = _feed(_machine(c['req']), _cut(wire, c.get('feed')), c['req'])
+	msgs, err = _feed(_machine(c['req']), _typed(_cut(wire, c.get('feed')), c.get('ft', 0)), c['req'])
 	if err:
 		res['err'] = err
 		return res
@@ -1634,6 +1646,1156 @@ def _state_http(c):
 _STATE = {'body': _state_body, 'shared': _state_shared, 'codec': _state_codec, 'mp': _state_mp, 'http': _state_http}
 
 
+# ------------------------------------------------------------------ input classes of the fifth wave of seeded changes
+# (10) aliasing, (11) argument types, (12) refused operations, (13) configuration knobs (charset of a constructor argument / attribute / class attribute),
+# (14) order, (15) order of API calls and feature interaction, (16) value-dependent rare branches (coded forms that end in or contain white space,
+# NUL, CR LF), (17) lengths at multiples of 2^k.  Kind 'w5' is oracle-only: every driver returns [label, got, want] triples, `want` is computed
+# with Python's standard library from the case or is what a fresh object gives.
+W5_TEXTS = ['plain ascii', 'grüße aus Köln', '£5 ½', 'café\r\n', 'привет', '€ 5', '\U0001f600', 'é', 'ÿ',
+	'਍†ഊ\u0009', ' ਀ഀ ', 'x ', 'ŒœŠ', 'あア', 'é' * 300]
+W5_CHARSETS = ['UTF-8', 'ISO8859-1', 'iso-8859-1', 'US-ASCII', 'UTF-16', 'utf-16-le', 'utf-16-be', 'UTF-32', 'utf-32-be', 'cp1252', 'Windows-1252', 'koi8-r', 'iso8859-15', 'iso8859-5', 'cp437', 'mac-roman',
+	'cp500', 'utf-7', 'gb18030', 'shift_jis', 'utf-8-sig', 'cp1251', 'big5', 'euc_kr']
+W5_SPELL = ['text/plain; charset="%s"', 'text/plain; CHARSET=%s', 'text/plain;charset=%s', 'text/plain; format=flowed; charset=%s', 'TEXT/PLAIN; charset=%s', 'text/plain; charset=%s; format=flowed']
+LENS2 = [511, 512, 513, 2047, 2048, 2049, 16383, 16384, 16385, 32767, 32768, 32769, 12287, 12288, 12289, 24575, 24576, 24577]
+WS = b'\t\n\x0b\x0c\r '
+W5_BD = b'w5-frontier-7f3a'
+
+
+def _encodable(t, cs):
+	try:
+		return t.encode(cs).decode(cs) == t
+	except (UnicodeError, LookupError):
+		return False
+
+
+def _adler_tail(rng, n, tail, mode='random8'):
+	"""n octets whose Adler-32 checksum (the last four octets of a zlib stream) ends in the octet(s) `tail` (one octet: the low octet of the sum; two: the
+	whole low half, which is 1 + the sum of the octets modulo 65521); the octets stay in the alphabet of the mode (7-bit for 'text' / 'random7')"""
+	import zlib
+	d = bytearray(_ascii_block(rng, n, mode))
+	limit = 256 if mode == 'random8' else 128
+	if len(tail) == 2:
+		want = tail[0] << 8 | tail[1]
+		if n * (limit - 1) + 1 < want:
+			return None
+		for _ in range(20 * n + 200):
+			diff = want - (zlib.adler32(bytes(d)) & 0xffff)
+			if diff == 0:
+				return bytes(d)
+			i = rng.randrange(n)
+			d[i] += min(diff, limit - 1 - d[i]) if diff > 0 else -min(-diff, d[i])
+		return None
+	for _ in range(400):
+		delta = (tail[0] - (zlib.adler32(bytes(d)) & 0xff)) % 256
+		if delta == 0:
+			return bytes(d)
+		i = rng.randrange(n)
+		v = (d[i] + delta) % 256
+		d[i] = v if v < limit else (d[i] + delta // 2 + 1) % limit
+	return None
+
+
+def _crc_tail(rng, n, mode='random8'):
+	"""n octets whose CRC-32 (it stands in front of the length field at the end of a gzip member, little endian) ends in a white space octet"""
+	import zlib
+	base = _ascii_block(rng, n, mode)
+	for _ in range(3000):
+		d = base[:-2] + bytes(rng.randrange(0x20, 0x7f) for _ in range(min(2, n)))
+		if (zlib.crc32(d) >> 24) in WS:
+			return d
+	return None
+
+
+def _safe_pairs(rng, n):
+	alph = ['a', 'b', 'z', 'A', '0', '9', ' ', '&', '=', '+', '%', 'ä', 'ÿ', '~', '/', '?', ';', 'zz', 'aa']
+	return [[''.join(rng.choice(alph) for _ in range(rng.randint(1, 3))), ''.join(rng.choice(alph) for _ in range(rng.randint(0, 3)))] for _ in range(n)]
+
+
+def _wave5_cases(rng, big):
+	import zlib
+	cases = []
+
+	def w5(s, **kw):
+		cases.append(dict({'k': 'w5', 's': s}, **kw))
+	# ---------------- (13)+(15)+(11) the declared charset, handed over in every way the API offers, with text outside ASCII
+	for cs in W5_CHARSETS:
+		texts = [t for t in W5_TEXTS if _encodable(t, cs)]
+		for t in texts:
+			w5('ctor', base='text/plain', mt='text/plain; charset=%s' % cs, cs=cs, t=t, c=rng.choice([GZ, ZL]))
+	for cs in ('ISO8859-1', 'koi8-r', 'UTF-16', 'cp1252', 'cp500'):
+		for spell in W5_SPELL:
+			t = 'привет' if cs == 'koi8-r' else 'grüße £5'
+			w5('ctor', base='text/plain', mt=spell % cs, cs=cs, t=t, c=rng.choice([GZ, ZL]))
+	for cs in ('UTF-8', 'ISO8859-1', 'UTF-16', 'utf-16-be', 'UTF-32', 'cp1252', 'koi8-r', 'cp500', 'utf-7', 'shift_jis'):
+		for v in ({'käy': ['grüße', 1.5, None]}, ['привет', {'a': 'あ'}], 'é', [' £ ']):
+			import json
+			doc = json.dumps(v, ensure_ascii=False)
+			if _encodable(doc, cs):
+				w5('ctor', base='application/json', mt='application/json; charset=%s' % cs, cs=cs, t=doc, v=v, c=rng.choice([GZ, ZL]))
+	# the same through the existing text round trip: every charset label, texts whose code units contain white space octets
+	for cs in W5_CHARSETS:
+		for t in W5_TEXTS[9:11] + ['ü']:
+			if _encodable(t, cs):
+				cases.append({'k': 'plain_rt', 'cs': cs, 't': t})
+	# ---------------- (11) argument types of every entry point
+	datas = [b'', b'x', b'hello \xff world', b'a,b\r\nc,d\r\n', bytes(range(256)), _ascii_block(rng, 4097, 'text'), _ascii_block(rng, 8192, 'random8')]
+	datas += [_small_data(rng) for _ in range(24 if big else 8)]
+	for d in datas:
+		for coding in (GZ, ZL):
+			cuts = sorted(rng.randint(0, len(d)) for _ in range(2))
+			w5('types', d=d.hex(), cut=cuts, c=coding)
+	for _ in range(60 if big else 24):
+		ps = _safe_pairs(rng, rng.randint(0, 5))
+		uniq = list({a: [a, b] for a, b in ps}.values())
+		bd = _boundary(rng, safe=True)
+		parts = [[_headers(rng, True), _clean(rng, rng.randint(0, 30), bd).hex()] for _ in range(rng.randint(0, 3))]
+		parts = [[[h for h in hs if b'--' + bd not in bytes.fromhex(h[1])], content] for hs, content in parts]
+		w5('args', ps=ps, uniq=uniq, cs=rng.choice(['UTF-8', 'ISO8859-1', None]), v=_w5_jval(rng), bd=bd.hex(), parts=parts, m=_http_msg(rng))
+	# ---------------- (10) aliasing: objects built from the same argument object
+	for _ in range(40 if big else 16):
+		bd, bd2 = _boundary(rng, safe=True), _boundary(rng, safe=True)
+		parts = [[_headers(rng, True), _clean(rng, rng.randint(0, 30)).hex()] for _ in range(rng.randint(1, 3))]
+		parts = [[[h for h in hs if b'--' + bd not in bytes.fromhex(h[1]) and b'--' + bd2 not in bytes.fromhex(h[1])], content] for hs, content in parts if b'--' + bd not in bytes.fromhex(content) and b'--' + bd2 not in bytes.fromhex(content)] or [[[], '']]
+		d = rng.choice([b'x', b'hello world \xff', _small_data(rng) or b'y', _ascii_block(rng, 5000, 'text')])
+		w5('alias', d=d.hex(), c=rng.choice([GZ, ZL]), v={'a': [1, 2, {'b': _jstr(rng)}], 'k': _jval(rng)}, ps=[p for p in _safe_pairs(rng, 3)], bd=bd.hex(), bd2=bd2.hex(), parts=parts, m=_http_msg(rng))
+	# ---------------- (12) refused operations leave the object as it was
+	for _ in range(40 if big else 16):
+		d = rng.choice([b'', b'x', b'kept content \xff\r\n', _small_data(rng)])
+		junk = rng.choice([b'asdf', b'\x1f\x8b', b'\x78\x9c', b'\x1f\x8b\x08\x00\x00\x00\x00\x00', _comp(GZ, b'truncated stream of some length')[:-5], _comp(ZL, b'truncated stream of some length')[:-3], _comp(ZL, b'abc') + b'garbage', b'\x00'])
+		w5('refused', d=d.hex(), junk=junk.hex(), c=rng.choice([GZ, ZL]), t=rng.choice(['grüße', 'ok', '']), bad=rng.choice(['€', 'п', '\U0001f600', 'a\ud800']), cs=rng.choice(['ISO8859-1', 'US-ASCII', 'koi8-r', 'cp1252']),
+			v=_jval(rng), ps=_safe_pairs(rng, 2), m=_http_msg(rng))
+	# ---------------- (15) the same operations in every order the API allows
+	import itertools
+	steps = ['content', 'type', 'coding', 'field']
+	perms = list(itertools.permutations(steps))
+	for coding in (GZ, ZL):
+		for req in (True, False):
+			for perm in perms if big else rng.sample(perms, 12):
+				d = rng.choice([b'x', b'hello \xff world\r\n', _small_data(rng) or b'z', _ascii_block(rng, 4097, 'text')])
+				w5('order', req=req, c=coding, perm=list(perm), d=d.hex(), cs=rng.choice(['UTF-8', 'ISO8859-1', 'utf-16', 'koi8-r']), text=None)
+			for cs, t in (('koi8-r', 'привет'), ('ISO8859-1', 'grüße'), ('UTF-16', 'abc'), ('cp1252', '€ 5')):
+				for perm in perms:
+					if perm.index('type') < perm.index('content'):    # text is converted when it is handed over: the charset has to be known by then
+						w5('order', req=req, c=coding, perm=list(perm), d='', cs=cs, text=t)
+	for _ in range(30 if big else 12):
+		w5('build', m=_http_msg(rng), bd=_boundary(rng, safe=True).hex(), content=_clean(rng, rng.randint(0, 40), b'w5').hex(), d=(_small_data(rng) or b'q').hex(), c=rng.choice([GZ, ZL]), level=rng.choice([0, 1, 9]))
+	# ---------------- (14) order: repeated field lines of one name that are not adjacent, list members / pairs / parts unsorted, repeated, reverse-sorted
+	rep = [('X-List', [b'3', b'1', b'2, 2', b'1']), ('Accept', [b'b/b;q=0.1', b'a/a', b'a/a', b'c/c;q=0.5']), ('Via', [b'1.1 z', b'1.0 a', b'1.1 z']), ('Cache-Control', [b'no-store', b'max-age=0', b'no-cache']),
+		('Content-Language', [b'fr', b'de', b'en, de']), ('X-Z', [b'z', b'y', b'x']), ('Accept-Language', [b'de;q=0.2', b'en', b'de;q=0.2']), ('Vary', [b'Cookie', b'Accept', b'Cookie'])]
+	for _ in range(80 if big else 40):
+		chosen = rng.sample(rep, rng.randint(1, 3))
+		lines = [[name, v.hex()] for name, vs in chosen for v in vs]
+		others = [h for h in _headers(rng, False) if h[0] not in [n for n, _ in rep] and h[0] != 'Content-Length']
+		lines += others
+		rng.shuffle(lines)
+		# a shuffle keeps the lines of one name in a random order too: restore the order of each name's values, keep the interleaving
+		order = {name: [v.hex() for v in vs] for name, vs in chosen}
+		lines = [[n, order[n].pop(0)] if n in order else [n, v] for n, v in lines]
+		hv = rng.choice([0, 2, 5])   # spellings that keep the order of the lines
+		if rng.random() < 0.5:
+			bd = _boundary(rng, safe=True)
+			if any(b'--' + bd in bytes.fromhex(v) for _, v in lines):
+				continue
+			ps = [[lines, _clean(rng, rng.randint(0, 20), bd).hex()], [lines[:2], b'second'.hex()]]
+			cases.append({'k': 'mp_dec', 'digest': False, 'bd': bd.hex(), 'd': _write_mp(bd, ps, hv, True).hex(), 'want': ps})
+		else:
+			m = _http_msg(rng)
+			m['hs'] = lines
+			cases.append({'k': 'http_dec', 'd': _write_http(m, hv).hex(), 'want': m})
+	listvals = [('Accept', b'b/b;q=0.1, a/a, a/a, c/c;q=0.5'), ('Accept-Language', b'de;q=0.2, en, de;q=0.2'), ('Accept-Encoding', b'identity;q=0.1, gzip'), ('Accept-Charset', b'utf-8;q=0.3, iso-8859-1'),
+		('Cache-Control', b'no-store, max-age=0, no-cache, no-store'), ('Via', b'1.1 z, 1.0 a, 1.1 z'), ('X-List', b'3, 1, 2, 2, 1'), ('Content-Language', b'fr, de, en, de'), ('Allow', b'PUT, GET, PUT, DELETE'),
+		('Vary', b'Cookie, Accept, Cookie'), ('If-Match', b'"z", "a", W/"m"'), ('Cookie', b'z=1; a=2; z=3'), ('Forwarded', b'for=z, for=a'), ('Pragma', b'x, no-cache'), ('Warning', b'199 - "z", 110 - "a"'),
+		('Link', b'</z>; rel=z, </a>; rel=a'), ('Upgrade', b'z/1, a/2'), ('Content-Type', b'text/plain; z=1; charset=utf-8; a=2'), ('Content-Disposition', b'form-data; name="n"; z=1; filename="f"; a=2')]
+	for name, v in listvals:
+		cases.append(_req(_h((name, v), ('Host', b'h')), b'body', 'POST', strict=True))
+		cases.append(_resp(_h((name, v)), b'body', strict=True))
+		cases.append(_mp([(_h((name, v), ('X-Custom', b'1')), b'content'), (_h((name, v)), b'x')], strict=True))
+	cases.append(_req([[n, v.hex()] for n, v in listvals if n != 'Content-Type'], b'body', 'POST', strict=True))
+	for ps in ([['z', '1'], ['a', '2'], ['z', '3'], ['m', '4'], ['a', '5']], [['c', '3'], ['b', '2'], ['a', '1']], [['a', '1'], ['b', '2'], ['c', '3']], [['a', 'z'], ['a', 'a'], ['a', 'm'], ['a', 'a']],
+			[['10', 'x'], ['9', 'x'], ['1', 'x']], [['b', ''], ['a', ''], ['b', '']], [['Z', '1'], ['a', '2'], ['B', '3']]):
+		for cs in ('UTF-8', None, 'ISO8859-1'):
+			cases.append({'k': 'form_rt', 'cs': cs, 'ps': ps})
+	for v in ([3, 1, 2, 2, 1], ['z', 'a', 'z', 'm'], [[2, 1], [1, 2], [2, 1]], [{'z': 1}, {'a': 2}, {'z': 1}], list(range(20, 0, -1)), [True, False, True, None, 0, 1], ['10', '9', '1'], [1.5, -1.5, 1.5]):
+		for cs in (None, 'UTF-8'):
+			cases.append({'k': 'json_rt', 'cs': cs, 'v': v})
+	for contents in ([b'z', b'a', b'z', b'm', b'a'], [b'c', b'b', b'a'], [b'same', b'same', b'same'], [b'', b'x', b''], [b'2', b'10', b'1']):
+		cases.append(_mp([(_h(('X-Custom', c2)), c2) for c2 in contents], strict=True))
+		cases.append(_mp([([], c2) for c2 in contents], sub='form-data', strict=True))
+	# ---------------- (16) value-dependent branches: coded forms that end in / contain white space, NUL, CR LF
+	found = []
+	for tail in [bytes([c]) for c in WS + b'\x00'] + [b'\r\n', b'\n\n', b'  ', b'\r\r', b'\n\r', b'\t ']:
+		for _ in range((60 if big else 24) if len(tail) == 1 else 4):
+			n = rng.randint(1, 40) if len(tail) == 1 else rng.randint(30, 60)
+			d = _adler_tail(rng, n, tail, rng.choice(['random8', 'random7', 'text']))
+			if d is not None:
+				found.append(d)
+	for d in found:
+		if zlib.compress(d)[-1:] not in WS + b'\x00':
+			continue
+		cases.append({'k': 'body_rt', 'c': ZL, 'cs': 'UTF-8', 'd': d.hex(), 'oo': True})
+		r = rng.random()
+		if r < 0.4:
+			cases.append({'k': 'wire', 'c': ZL, 'cs': rng.choice(['UTF-8', 'ISO8859-1']), 'req': rng.random() < 0.5, 'd': d.hex()})
+		else:
+			n = len(_payload({'c': ZL, 'd': d.hex(), 'enc': 'py6'}))
+			fr = rng.choice([['cl'], ['ch', [n]], ['ch', [max(n - 1, 1), 1]], ['ch', [max(n - 2, 1)]], ['ch', 1], ['ch', [max(n - 4, 1), 4]]])
+			cases.append({'k': 'wire_rf', 'c': ZL, 'cn': ZL, 'cs': 'UTF-8', 'req': rng.random() < 0.5, 'd': d.hex(), 'enc': rng.choice(['py6', 'py0', 'py9', 'lib', 'multi']), 'fr': fr, 'hv': rng.randrange(6),
+				'ext': False, 'fmt': '%x', 'tr': rng.random() < 0.2, 'feed': rng.choice([0, 0, 1, 7]), 'ft': rng.randrange(4)})
+	for d in found[::6]:
+		coded = zlib.compress(d)
+		if b'--asdf' not in coded:
+			cases.append(_mp([(_h(('Content-Encoding', b'deflate'), ('Content-Type', b'application/octet-stream')), coded), ([], coded + coded)], strict=True))
+			cases.append(_req(_h(('Host', b'h'), ('Content-Encoding', b'deflate')), coded, 'POST'))
+	# multi-piece contents: every 4096-octet piece of the composer has a checksum that ends in white space (the coded octets of each piece do)
+	for i in range(300 if big else 100):
+		pieces = []
+		for j in range(rng.choice([2, 2, 3])):
+			last = j and rng.random() < 0.5
+			p = _adler_tail(rng, rng.randint(1, 4095) if last else 4096, bytes([rng.choice(WS)]), rng.choice(['text', 'text', 'random7']))
+			if p is not None:
+				pieces.append(p)
+			if last:
+				break
+		d = b''.join(pieces)
+		if not d:
+			continue
+		oo = i % 8 != 0    # one in eight also through the model
+		if i % 2:
+			cases.append({'k': 'wire', 'c': ZL, 'cs': 'UTF-8', 'req': i % 4 == 1, 'd': d.hex(), 'oo': oo})
+		else:
+			cases.append({'k': 'wire_rf', 'c': ZL, 'cn': ZL, 'cs': 'UTF-8', 'req': i % 4 == 0, 'd': d.hex(), 'enc': 'lib', 'fr': rng.choice([['cl'], ['ch', 4096], ['ch', [1000]], ['ch', 17]]), 'hv': rng.randrange(6),
+				'ext': False, 'fmt': '%x', 'tr': False, 'feed': rng.choice([0, 1000]), 'ft': rng.randrange(4), 'oo': oo})
+		if i % 6 == 0:
+			cases.append({'k': 'body_rt', 'c': ZL, 'cs': 'UTF-8', 'd': d.hex(), 'oo': True})
+			cases.append({'k': 'iter', 'c': ZL, 'd': d.hex(), 'oo': True})
+	# gzip members: the length field (little endian) and the CRC in front of it in white space octets
+	for n in [9, 10, 11, 12, 13, 32, 0x0a0d, 0x0d0a, 0x2020, 0x0920, 0x0a0a, 265, 266, 269, 288, 0x0d0d] + ([0x200a, 0x2009] if big else []):
+		for _ in range(3 if n < 300 else 1):
+			d = _crc_tail(rng, n, 'random8' if n < 300 else 'text') or _ascii_block(rng, n, 'text')
+			cases.append({'k': 'body_rt', 'c': GZ, 'cs': 'UTF-8', 'd': d.hex(), 'oo': True})
+			cases.append({'k': 'wire', 'c': GZ, 'cs': 'UTF-8', 'req': n % 2 == 0, 'd': d.hex(), 'oo': n >= 300})
+			m = len(_payload({'c': GZ, 'd': d.hex(), 'enc': 'py6'}))
+			cases.append({'k': 'wire_rf', 'c': GZ, 'cn': GZ, 'cs': 'UTF-8', 'req': n % 2 == 1, 'd': d.hex(), 'enc': rng.choice(['py6', 'py9', 'mtime_ws', 'named']), 'fr': rng.choice([['cl'], ['ch', [max(m - 4, 1), 4]], ['ch', [max(m - 8, 1)]], ['ch', [m]]]),
+				'hv': rng.randrange(6), 'ext': False, 'fmt': '%x', 'tr': False, 'feed': rng.choice([0, 1]), 'ft': rng.randrange(4), 'oo': n >= 300})
+	# stored blocks (level 0) carry the content verbatim: wire metacharacters inside the coded octets
+	for d in (b'\r\n0\r\n\r\n', b'\r\n\r\n', b'0\r\n\r\n', b'HTTP/1.1 200 OK\r\n\r\n', b'\r\n5\r\nhello\r\n0\r\n\r\n', b'\r\nContent-Length: 0\r\n\r\n', b' \t\r\n', b'\n', b'\r', b'\x00' * 9, b' ' * 33, b'--asdf--\r\n', b'a\r\n' * 30):
+		for fam in (GZ, ZL):
+			for enc in ('py0', 'mtime_ws' if fam == GZ else 'py0', 'multi'):
+				m = len(_payload({'c': fam, 'd': d.hex(), 'enc': enc}))
+				for fr in (['cl'], ['ch', [m]], ['ch', rng.choice([1, 2, 3, 5])]):
+					cases.append({'k': 'wire_rf', 'c': fam, 'cn': fam, 'cs': 'UTF-8', 'req': rng.random() < 0.5, 'd': d.hex(), 'enc': enc, 'fr': fr, 'hv': rng.randrange(6), 'ext': rng.random() < 0.2, 'fmt': '%x',
+						'tr': False, 'feed': rng.choice([0, 1, 3]), 'ft': rng.randrange(4)})
+			cases.append({'k': 'body_rt', 'c': fam, 'cs': 'UTF-8', 'd': d.hex()})
+			cases.append({'k': 'wire', 'c': fam, 'cs': 'UTF-8', 'req': len(d) % 2 == 0, 'd': d.hex()})
+	# ---------------- (17) lengths at 2^k (k = 9..16), at multiples of the piece size, and next to them, in every position that has a length
+	for n in LENS2:
+		small = n < 9000
+		for cs in ('UTF-8', 'utf-16'):
+			cases.append({'k': 'plain_rt', 'cs': cs, 't': 'a' * (n - 1) + 'é'})
+		cases.append({'k': 'plain_rt', 'cs': 'ISO8859-1', 't': 'ÿ' * n})
+		cases.append({'k': 'json_rt', 'cs': None, 'v': 'a' * (n - 1) + '€'})
+		cases.append({'k': 'json_rt', 'cs': 'UTF-8', 'v': {'k' * n: ['v' * n]}})
+		cases.append({'k': 'form_rt', 'cs': 'UTF-8', 'ps': [['n', 'a' * (n - 1) + ' '], ['m' * n, '€' * (n // 3)]]})
+		if n <= 2049:
+			cases.append({'k': 'json_rt', 'cs': None, 'v': list(range(n))})
+			cases.append({'k': 'form_rt', 'cs': None, 'ps': [['k%d' % i, str(i)] for i in range(n)]})
+		if n <= 513:
+			cases.append(_mp([(_h(('X-Custom', b'%d' % i)), b'%d' % i) for i in range(n)]))
+			cases.append(_req([['X-H%d' % i, b'v'.hex()] for i in range(n)], b'c', 'POST'))
+		for coding in (GZ, ZL):
+			for mode in ('text', 'random8'):
+				d = _ascii_block(rng, n, mode)
+				cases.append({'k': 'body_rt', 'c': coding, 'cs': 'UTF-8', 'd': d.hex(), 'oo': not small})
+				cases.append({'k': 'wire', 'c': coding, 'cs': 'UTF-8', 'req': n % 2 == 0, 'd': d.hex(), 'oo': not small or mode == 'random8'})
+			d = _ascii_block(rng, n, 'text')
+			m = len(_payload({'c': coding, 'd': d.hex(), 'enc': 'py6'}))
+			for enc, fr in (('py6', ['ch', 512]), ('lib', ['ch', rng.choice([1024, 2048, 4096])]), ('compress', ['cl']), ('py6', ['ch', [max(m // 2, 1)]])):
+				cases.append({'k': 'wire_rf', 'c': coding, 'cn': coding, 'cs': 'UTF-8', 'req': n % 2 == 1, 'd': d.hex(), 'enc': enc, 'fr': fr, 'hv': rng.randrange(6), 'ext': False, 'fmt': '%x', 'tr': False,
+					'feed': rng.choice([0, 512, 4096]), 'ft': rng.randrange(4), 'oo': n > 2100 or (n > 600 and enc != 'py6')})
+			cases.append({'k': 'iter', 'c': coding, 'd': d.hex(), 'oo': not small})
+		cases.append({'k': 'pieces', 'd': _ascii_block(rng, n, 'text').hex(), 'oo': not small})
+		v = _ascii_block(rng, n, 'random7').replace(b'\r', b'r').replace(b'\n', b'n').replace(b'\x00', b'0').strip() or b'v'
+		v = (v + b'x' * n)[:n - 1] + b'z'
+		cases.append(_mp([(_h(('X-Custom', b'1')), _clean(rng, n, b'asdf')), ([], _clean(rng, n - 1, b'asdf') + b'\r')], oo=not small))
+		cases.append(_mp([(_h(('X-Custom', v), ('Content-Type', b'text/plain')), b'c')], oo=not small))
+		cases.append(_resp(_h(('X-Custom', v)), b'c', oo=n > 600))
+		cases.append(_resp(_h(('X-Custom', b'v')), _clean(rng, n), oo=n > 2100))
+		cases.append(_req(_h(('Host', b'h'), ('Cookie', b'k=' + v)), _clean(rng, n, None, 'text'), 'POST', '/' + 'a' * (n - 1), oo=n > 600))
+	# the ENCODED form has the length 2^k (k = 9..16) or one more / less: JSON document, form payload, text, multipart body, embedded message
+	for k in range(9, 17):
+		for n in (2 ** k - 1, 2 ** k, 2 ** k + 1):
+			cases.append({'k': 'json_rt', 'cs': rng.choice([None, 'UTF-8']), 'v': 'a' * (n - 2)})
+			cases.append({'k': 'json_rt', 'cs': None, 'v': ['a' * (n - 6)]})
+			cases.append({'k': 'form_rt', 'cs': 'UTF-8', 'ps': [['n', 'a' * (n - 2)]]})
+			cases.append({'k': 'plain_rt', 'cs': 'utf-16-le', 't': 'a' * (n // 2)})
+			# '--asdf\r\n\r\n' + content + '\r\n--asdf--\r\n' = content + 22 octets (a part without header fields)
+			cases.append(_mp([([], _clean(rng, max(n - 22, 0), b'asdf', 'text'))], oo=n > 9000))
+			# 'POST / HTTP/1.1\r\n' + 'Host: h\r\n' + '\r\n' + body = body + 28 octets
+			cases.append(_req(_h(('Host', b'h')), _clean(rng, n - 28, None, 'text'), 'POST', oo=n > 2100))
+	# the window of the deflate algorithm: a block repeated at a distance of 32768 and next to it
+	for dist in (32767, 32768, 32769):
+		blk = _ascii_block(rng, dist, 'random8')
+		for coding in (GZ, ZL):
+			cases.append({'k': 'body_rt', 'c': coding, 'cs': 'UTF-8', 'd': (blk + blk[:600]).hex(), 'oo': True})
+			cases.append({'k': 'wire_rf', 'c': coding, 'cn': coding, 'cs': 'UTF-8', 'req': dist % 2 == 0, 'd': (blk + blk[:600]).hex(), 'enc': 'py9', 'fr': ['ch', 32768], 'hv': 0, 'ext': False, 'fmt': '%x', 'tr': False, 'feed': 0, 'oo': True})
+	return cases
+
+
+def _w5_jval(rng):
+	"""a JSON value built from lists, tuples and mappings whose keys are not in sorted order"""
+	keys = rng.sample(['z', 'a', 'm', 'B', '10', '9', 'ä', ''], rng.randint(1, 4))
+	return {'keys': keys, 'vals': [_jval(rng, 2) for _ in keys], 'seq': [_jval(rng, 2) for _ in range(rng.randint(0, 4))]}
+
+
+def _try(f):
+	try:
+		return f()
+	except Exception as exc:
+		return 'raised %s' % _err(exc)
+
+
+def _hx(x):
+	return x.hex() if isinstance(x, (bytes, bytearray)) else x
+
+
+def _deliver(msg, req, pieces_type=0):
+	"""the body octets a fresh machine delivers for a message composed by the library (response to GET /x, or a POST request)"""
+	from httoop import Request
+	from httoop.semantic.request import ComposedRequest
+	from httoop.semantic.response import ComposedResponse
+	if req:
+		comp = ComposedRequest(msg)
+		if msg.headers.get('Content-Encoding'):
+			comp.chunked = True
+	else:
+		comp = ComposedResponse(msg, Request('GET', '/x'))
+	comp.prepare()
+	wire = b''.join(comp)
+	msgs, err = _feed(_machine(req), _typed([wire], pieces_type), req)
+	if err:
+		return 'raised %s' % err, None
+	if len(msgs) != 1:
+		return 'delivered %d messages' % len(msgs), None
+	return bytes(msgs[0].body).hex(), msgs[0]
+
+
+def _typed(pieces, ft):
+	"""the received octets as bytes, bytearray, memoryview, or one receive buffer that is reused for every piece"""
+	if ft == 1:
+		return [bytearray(p) for p in pieces]
+	if ft == 2:
+		return [memoryview(p) for p in pieces]
+	if ft == 3:
+		def reused():
+			buf = bytearray()
+			for p in pieces:
+				buf[:] = p
+				yield buf
+		return reused()
+	return pieces
+
+
+def _w5_ctor(c):
+	"""text content and a media type that declares a charset, handed over in every way the API offers: the octets are the text in the declared charset"""
+	import json
+	from httoop import Body, Request, Response
+	from httoop.codecs import lookup
+	mt, cs, t = c['mt'], c['cs'], c['t']
+	want = t.encode(cs)
+	value = c.get('v', t)
+	ck = []
+	h = max(1, len(t) // 2)
+	pieces = [t[:h], t[h:]]
+	want_pieces = b''.join(p.encode(cs) for p in pieces if p)    # an empty piece contributes nothing (no byte order mark either)
+	ref = Body()
+	ref.mimetype = mt
+	ref_mt = bytes(ref.mimetype).hex()
+
+	def attr():
+		b = Body()
+		b.mimetype = mt
+		b.set(t)
+		return b
+
+	def by_set():
+		b = Body(mimetype=mt)
+		b.set(t)
+		return b
+
+	def by_encode():
+		b = Body(mimetype=mt)
+		b.encode(value)
+		return b
+
+	def by_encoding():
+		b = Body()
+		b.mimetype = c['base']
+		b.encoding = cs
+		b.set(t)
+		return b
+
+	def by_header():
+		b = Body()
+		b.headers['Content-Type'] = mt
+		b.set(t)
+		return b
+
+	def by_message(cls):
+		def f():
+			m = cls()
+			m.body.mimetype = mt
+			m.body = t
+			return m.body
+		return f
+
+	def by_message_ctor(cls):
+		return lambda: cls(body=Body(t, mimetype=mt)).body
+	ways = [('Body(text, mimetype=...)', lambda: Body(t, mimetype=mt)), ('Body(text, mimetype)', lambda: Body(t, mt)), ('Body(content=text, mimetype=octets)', lambda: Body(content=t, mimetype=mt.encode('ascii'))),
+		('Body(text, mimetype=ContentType element)', lambda: Body(t, mimetype=ref.mimetype)), ('body.mimetype = ...; body.set(text)', attr), ('Body(mimetype=...).set(text)', by_set),
+		('Body(mimetype=...).encode(value)', by_encode), ('body.encoding = charset; body.set(text)', by_encoding), ('body.headers[Content-Type] = ...; body.set(text)', by_header),
+		('response.body.mimetype = ...; response.body = text', by_message(Response)), ('request.body.mimetype = ...; request.body = text', by_message(Request)),
+		('Response(body=Body(text, mimetype=...))', by_message_ctor(Response)), ('Request(body=Body(text, mimetype=...))', by_message_ctor(Request)),
+		('Body(Body(text, mimetype=...))', lambda: Body(Body(t, mimetype=mt)))]
+	for label, make in ways:
+		try:
+			b = make()
+			got = bytes(b).hex()
+		except Exception as exc:
+			ck.append([label, 'raised %s' % _err(exc), want.hex()])
+			continue
+		if not (c['base'] != 'text/plain' and label == 'Body(mimetype=...).encode(value)'):    # json.dumps escapes: other octets, same value
+			ck.append([label + ': octets', got, want.hex()])
+		if label != 'body.encoding = charset; body.set(text)':
+			ck.append([label + ': media type', _try(lambda: bytes(b.mimetype).hex()), ref_mt])
+		ck.append([label + ': decode()', _try(lambda: _jcanon(b.decode())), _jcanon(value)])
+		if c['base'] == 'text/plain':
+			ck.append([label + ': str()', _try(lambda: _jcanon(str(b))), _jcanon(t)])
+	for label, make in (('Body([text, text], mimetype=...)', lambda: Body(list(pieces), mimetype=mt)), ('Body((text, text), mimetype)', lambda: Body(tuple(pieces), mt)),
+			('Body(generator of text, mimetype=...)', lambda: Body((p for p in pieces), mimetype=mt)), ('Body(iter([text, text]), mimetype=...)', lambda: Body(iter(pieces), mimetype=mt))):
+		ck.append([label + ': octets', _try(lambda: bytes(make()).hex()), want_pieces.hex()])
+	# the receiving side
+	ck.append(['Body(octets, mimetype=...).decode()', _try(lambda: _jcanon(Body(want, mimetype=mt).decode())), _jcanon(value)])
+	# coded, as a part of a multipart body, through the wire
+	fam = c['c']
+
+	def coded():
+		b = Body(t, mimetype=mt)
+		b.content_encoding = fam
+		b.compress()
+		return _decodes_to(fam, bytes(b))
+	ck.append(['Body(text, mimetype=...) compressed (%s)' % fam, _try(coded), want.hex()])
+
+	def coded_iter():
+		b = Body(t, mimetype=mt)
+		b.content_encoding = fam
+		return _decodes_to(fam, b''.join(b))
+	ck.append(['Body(text, mimetype=...) composed with Content-Encoding %s' % fam, _try(coded_iter), want.hex()])
+	if b'--' + W5_BD not in want:
+		def part():
+			p = Body(t, mimetype=mt)
+			p.headers['Content-Disposition'] = 'form-data; name="field"'
+			q = Body(b'\x00\xff', mimetype='application/octet-stream')
+			outer = Body(mimetype='multipart/form-data; boundary=%s' % W5_BD.decode('ascii'))
+			outer.encode([p, q])
+			back = Body(bytes(outer), mimetype='multipart/form-data; boundary=%s' % W5_BD.decode('ascii')).decode()
+			return [len(back), bytes(back[0]).hex(), bytes(back[0].mimetype).hex(), back[0].headers.getbytes('Content-Disposition').hex(), _jcanon(back[0].decode()), bytes(back[1]).hex()]
+		ck.append(['part of a multipart body made by Body(text, mimetype=...)', _try(part), [2, want.hex(), ref_mt, b'form-data; name="field"'.hex(), _jcanon(value), '00ff']])
+	for req in (False, True):
+		for coding in (None, fam):
+			def wire():
+				m = Request('POST', '/x') if req else Response()
+				if req:
+					m.headers['Host'] = 'h'
+				m.body = Body(t, mimetype=mt)
+				if coding:
+					m.headers['Content-Encoding'] = coding
+					if req:
+						m.body.content_encoding = coding
+				got, msg = _deliver(m, req)
+				if msg is None:
+					return got
+				return [got, _jcanon(msg.body.decode())]
+			ck.append(['%s whose body is Body(text, mimetype=...) %s, as delivered by the receiving machine' % ('request' if req else 'response', 'coded with %s' % coding if coding else 'uncoded'), _try(wire), [want.hex(), _jcanon(value)]])
+	return ck
+
+
+def _containers(d, cut):
+	"""the octets d as every kind of content object the Body documentation lists (pieces cut at the given places, one empty piece among them)"""
+	import collections
+	import itertools
+	ps = [d[:cut[0]], b'', d[cut[0]:cut[1]], d[cut[1]:]]
+	return [('bytes', lambda: d, True), ('bytearray', lambda: bytearray(d), True), ('list', lambda: list(ps), True), ('tuple', lambda: tuple(ps), True), ('iter(list)', lambda: iter(list(ps)), True),
+		('generator', lambda: (p for p in ps), True), ('deque', lambda: collections.deque(ps), True), ('BytesIO', lambda: io.BytesIO(d), True),
+		# map / itertools.chain objects are read once: the library buffers generators and list iterators only (observed on the unchanged tree, reported) -> a single pass
+		('map', lambda: map(bytes, ps), False), ('itertools.chain', lambda: itertools.chain(ps[:2], ps[2:]), False), ('dict keys', lambda: dict.fromkeys(p for p in ps if p), True)]
+	# not memoryview: Body iterates it as integers and refuses them with TypeError (the documented content types do not list it)
+
+
+def _w5_types(c):
+	"""(11) the same octets as every type of content object / argument: the result is the one the bytes form gives"""
+	import tempfile
+	from httoop import Body, Response
+	from httoop.codecs import lookup
+	d, cut, fam = bytes.fromhex(c['d']), c['cut'], c['c']
+	ck = []
+	for name, make, again in _containers(d, cut):
+		if name == 'dict keys' and len(set(p for p in (d[:cut[0]], d[cut[0]:cut[1]], d[cut[1]:]) if p)) != len([p for p in (d[:cut[0]], d[cut[0]:cut[1]], d[cut[1]:]) if p]):
+			continue
+		b = _try(lambda: Body(make()))
+		if isinstance(b, str):
+			ck.append(['Body(%s)' % name, b, d.hex()])
+			continue
+		ck.append(['Body(%s): octets' % name, _try(lambda: bytes(b).hex()), d.hex()])
+		if again:
+			ck.append(['Body(%s): octets, read again' % name, _try(lambda: bytes(b).hex()), d.hex()])
+
+		def rt():
+			b = Body(make())
+			b.content_encoding = fam
+			b.compress()
+			coded = bytes(b)
+			out = [_decodes_to(fam, coded)]
+			for typ in (bytes, bytearray):
+				b2 = Body(typ(coded))
+				b2.content_encoding = fam
+				b2.decompress()
+				out.append(bytes(b2).hex())
+			return out
+		ck.append(['Body(%s) compressed and decompressed (%s)' % (name, fam), _try(rt), [d.hex()] * 3])
+
+		def it():
+			b = Body(make())
+			b.content_encoding = fam
+			return _decodes_to(fam, b''.join(b))
+		ck.append(['Body(%s) composed with Content-Encoding %s' % (name, fam), _try(it), d.hex()])
+
+		def wire():
+			m = Response()
+			m.body = make()
+			m.headers['Content-Encoding'] = fam
+			return _deliver(m, False, len(name) % 4)[0]
+		if again:   # preparing a response measures the body, which already is the one pass of a map / chain object: the composed body is empty (unchanged tree, reported)
+			ck.append(['response.body = %s, coded with %s, as delivered' % (name, fam), _try(wire), d.hex()])
+	# text pieces in a charset that maps every octet
+	text = d.decode('ISO8859-1')
+	for name, make in (('str', lambda: text), ('list of str', lambda: [text[:cut[0]], text[cut[0]:]]), ('generator of str', lambda: (p for p in (text[:cut[1]], text[cut[1]:])))):
+		def rt2():
+			b = Body(make(), mimetype='text/plain; charset=ISO8859-1')
+			first = bytes(b).hex()
+			b.content_encoding = fam
+			b.compress()
+			return [first, _decodes_to(fam, bytes(b))]
+		ck.append(['Body(%s, charset ISO8859-1) compressed (%s)' % (name, fam), _try(rt2), [d.hex()] * 2])
+	with tempfile.TemporaryFile() as fd:
+		fd.write(d)
+		fd.seek(0)
+
+		def rt3():
+			b = Body(fd)
+			first = bytes(b).hex()
+			b.content_encoding = fam
+			coded = b''.join(b)
+			return [first, _decodes_to(fam, coded), bytes(b).hex() and _decodes_to(fam, bytes(b))]
+		ck.append(['Body(temporary file) composed with Content-Encoding %s, twice' % fam, _try(rt3), [d.hex()] * 3])
+	# the content-coding codecs themselves: every bytes-like argument
+	codec = lookup(MIME[fam])
+	coded = _comp(fam, d)
+	for typ in (bytes, bytearray, memoryview):
+		ck.append(['%s codec: encode(%s)' % (fam, typ.__name__), _try(lambda: _decodes_to(fam, codec.encode(typ(d)))), d.hex()])
+		ck.append(['%s codec: decode(%s)' % (fam, typ.__name__), _try(lambda: codec.decode(typ(coded), 'ISO8859-1').encode('ISO8859-1').hex()), d.hex()])
+	return ck
+
+
+def _w5_args(c):
+	"""(11)+(14) form pairs, JSON values and multipart part lists as list / tuple / mapping / one-shot iterator: the result is the one the list form gives, in the order given"""
+	import collections
+	import itertools
+	import json
+	from httoop import Body, Headers
+	ck = []
+	ps = [tuple(p) for p in c['ps']]
+	uniq = [tuple(p) for p in c['uniq']]
+	mt = 'application/x-www-form-urlencoded' + ('; charset=%s' % c['cs'] if c['cs'] else '')
+
+	def form(v, want):
+		b = Body(mimetype=mt)
+		b.encode(v)
+		enc = bytes(b)
+		return [[list(p) for p in Body(enc, mimetype=mt).decode()], enc.hex()]
+	if not _low_unsafe(b''.join(a.encode('UTF-8') + b.encode('UTF-8') for a, b in ps), set(range(0x10, 0x100))) and all(ord(ch) < 256 for a, b in ps for ch in a + b):
+		ref = _try(lambda: form(list(ps), ps))
+		ck.append(['form pairs as list', ref if isinstance(ref, str) else ref[0], [list(p) for p in ps]])
+		for name, v in (('tuple', tuple(ps)), ('list of lists', [list(p) for p in ps]), ('iter(list)', iter(list(ps))), ('generator', (p for p in ps)), ('map', map(tuple, ps)), ('itertools.chain', itertools.chain(ps[:1], ps[1:])),
+				('zip', zip([a for a, _ in ps], [b for _, b in ps])), ('deque', collections.deque(ps))):
+			ck.append(['form pairs as %s: same as the list form' % name, _try(lambda: form(v, ps)), ref])
+		refu = _try(lambda: form(list(uniq), uniq))
+		ck.append(['form pairs with distinct names as list', refu if isinstance(refu, str) else refu[0], [list(p) for p in uniq]])
+		for name, v in (('dict', dict(uniq)), ('OrderedDict', collections.OrderedDict(uniq)), ('dict.items()', dict(uniq).items()), ('dict subclass', type('D', (dict,), {})(uniq))):
+			ck.append(['form pairs as %s: same as the list form, insertion order kept' % name, _try(lambda: form(v, uniq)), refu])
+		rev = list(reversed(uniq))
+		ck.append(['form pairs as dict filled in the reverse order', _try(lambda: form(dict(rev), rev)[0]), [list(p) for p in rev]])
+	# JSON
+	jv = c['v']
+	keys, vals, seq = jv['keys'], jv['vals'], jv['seq']
+	plain = {'obj': dict(zip(keys, vals)), 'seq': list(seq), 'nest': [list(seq), dict(zip(keys, vals))]}
+
+	def js(v):
+		b = Body(mimetype='application/json')
+		b.encode(v)
+		enc = bytes(b)
+		back = Body(enc, mimetype='application/json').decode()
+		return [_jcanon(back), _jcanon(json.loads(enc.decode('UTF-8'))), list(back['obj'].keys())]
+	want = [_jcanon(plain), _jcanon(plain), list(keys)]
+	ck.append(['JSON value built from dict and list', _try(lambda: js(plain)), want])
+	od = collections.OrderedDict(zip(keys, vals))
+	ck.append(['JSON value built from OrderedDict and tuple', _try(lambda: js({'obj': od, 'seq': tuple(seq), 'nest': (tuple(seq), od)})), want])
+	ck.append(['JSON value built from a dict subclass and a list subclass', _try(lambda: js({'obj': type('D', (dict,), {})(zip(keys, vals)), 'seq': type('Lst', (list,), {})(seq), 'nest': [list(seq), dict(zip(keys, vals))]})), want])
+	# multipart
+	from httoop.codecs import lookup
+	bd = bytes.fromhex(c['bd'])
+	codec = lookup('multipart/mixed')
+
+	def mp(container):
+		b = Body()
+		b.mimetype = _mp_ct('mixed', bd)
+		b.encode(container(_part_bodies(c['parts'])))
+		enc = bytes(b)
+		b2 = Body(enc)
+		b2.mimetype = _mp_ct('mixed', bd)
+		return [[[sorted((k.lower(), v) for k, v in _items(p.headers)), bytes(p).hex()] for p in b2.decode()], enc.hex()]
+	wantp = []
+	for hs, content in c['parts']:
+		f = {k.lower(): v for k, v in hs}
+		f.setdefault('content-type', codec.default_content_type.encode('ascii').hex())
+		wantp.append([sorted(f.items()), content])
+	refm = _try(lambda: mp(list))
+	ck.append(['multipart parts as list', refm if isinstance(refm, str) else refm[0], wantp])
+	for name, container in (('tuple', tuple), ('iter(list)', iter), ('generator', lambda l: (p for p in l)), ('map', lambda l: map(lambda p: p, l)), ('itertools.chain', lambda l: itertools.chain(l[:1], l[1:])),
+			('deque', collections.deque), ('reversed(reversed list)', lambda l: reversed(list(reversed(l))))):
+		ck.append(['multipart parts as %s: same as the list form' % name, _try(lambda: mp(container)), refm])
+	# message/http: header fields given as dict / list of pairs / Headers; body as bytes / bytearray / list
+	m = c['m']
+	fields = [(k, bytes.fromhex(v)) for k, v in m['hs']]
+	refh = _try(lambda: lookup('message/http').encode(_http_build(m)).hex())
+	for name, hv in (('dict', lambda: dict(fields)), ('OrderedDict', lambda: collections.OrderedDict(fields)), ('list of pairs', lambda: list(fields)), ('generator of pairs', lambda: (f for f in fields)),
+			('Headers', lambda: Headers(dict(fields))), ('update(dict)', None)):
+		for bname, bv in (('bytes', bytes), ('bytearray', bytearray), ('list', lambda x: [x[:2], x[2:]])):
+			def build():
+				if hv is None:
+					msg = _http_start(m)
+					msg.headers.update(dict(fields))
+				else:
+					msg = _http_start(m, headers=hv())
+				msg.body = bv(bytes.fromhex(m['body']))
+				return lookup('message/http').encode(msg).hex()
+			ck.append(['message/http: header fields as %s, body as %s: same as field by field' % (name, bname), _try(build), refh])
+	return ck
+
+
+def _http_start(m, **kw):
+	"""start line and protocol of a generated message; header fields / body through the constructor arguments given"""
+	from httoop import Request, Response
+	if m['req']:
+		msg = Request(m['method'], m['uri'], **kw)
+	else:
+		msg = Response(m['status'], **kw)
+		msg.status.reason = m['reason']
+	msg.protocol = tuple(int(x) for x in m['proto'].split('.'))
+	return msg
+
+
+def _bstate(b):
+	return [_try(lambda: bytes(b).hex()), _try(lambda: bytes(b.headers).hex()), _try(lambda: b.tell()), _try(lambda: repr(b.content_encoding)), _try(lambda: bytes(b.trailer).hex())]
+
+
+def _w5_alias(c):
+	"""(10) two objects built from the same argument object do not share state: the second is changed, the first must behave like a fresh one, the argument is unchanged"""
+	import collections
+	import copy
+	from httoop import Body, Headers, Request, Response
+	from httoop.codecs import lookup
+	d, fam = bytes.fromhex(c['d']), c['c']
+	other = ZL if fam == GZ else GZ
+	ck = []
+
+	def fresh():
+		return _bstate(Body(d))
+	# two bodies without arguments / two messages: no shared default state
+	a, b = Body(), Body()
+	a.headers['X-Mark'] = '1'
+	a.trailer['X-Trailer'] = '1'
+	a.write(b'written')
+	a.content_encoding = fam
+	ck.append(['Body() after another Body() was changed', _bstate(b), _bstate(Body())])
+	for cls in (Request, Response):
+		m1, m2 = cls(), cls()
+		m1.headers['X-Mark'] = '1'
+		m1.body = d
+		m1.body.headers['X-Mark'] = '1'
+		m1.body.content_encoding = fam
+		ck.append(['%s() after another %s() was changed' % (cls.__name__, cls.__name__), [bytes(m2.headers).hex()] + _bstate(m2.body), [bytes(cls().headers).hex()] + _bstate(cls().body)])
+	# Body(A), B.set(A), message.body = A
+	for how in ('Body(A)', 'B.set(A)', 'message.body = A', 'Response(body=A)'):
+		A = Body(d)
+		if how == 'Body(A)':
+			B = Body(A)
+		elif how == 'B.set(A)':
+			B = Body()
+			B.set(A)
+		elif how == 'message.body = A':
+			msg = Response()
+			msg.body = A
+			B = msg.body
+		else:
+			B = Response(body=A).body
+		ck.append(['%s: B has the content of A' % how, _try(lambda: bytes(B).hex()), d.hex()])
+		B.headers['X-Mark'] = '1'
+		B.mimetype = 'application/octet-stream'
+		B.content_encoding = fam
+		coded = _try(lambda: b''.join(B))
+		ck.append(['%s: B composed with Content-Encoding %s' % (how, fam), coded if isinstance(coded, str) else _decodes_to(fam, coded), d.hex()])
+		ck.append(['%s: A after B was given a coding, a field and a media type and was composed' % how, _bstate(A), fresh()])
+		_try(B.compress)
+		ck.append(['%s: B compressed' % how, _try(lambda: _decodes_to(fam, bytes(B))), d.hex()])
+		ck.append(['%s: A after B was compressed' % how, _bstate(A), fresh()])
+		A.content_encoding = other
+		_try(A.compress)
+		ck.append(['%s: A compressed afterwards (%s)' % (how, other), _try(lambda: _decodes_to(other, bytes(A))), d.hex()])
+		ck.append(['%s: B after A was compressed' % how, _try(lambda: _decodes_to(fam, bytes(B))), d.hex()])
+	# one bytearray / one list for two bodies
+	ba = bytearray(d)
+	A, B = Body(ba), Body(ba)
+	B.content_encoding = fam
+	_try(B.compress)
+	ba[:] = b'overwritten' * 3
+	ck.append(['Body(bytearray) after the bytearray was overwritten and a second body made from it was compressed', _bstate(A), fresh()])
+	lst = [d[:3], d[3:]]
+	keep = list(lst)
+	A, B = Body(lst), Body(lst)
+	B.content_encoding = fam
+	_try(B.compress)
+	B.set(b'other')
+	ck.append(['Body(list) after a second body made from the same list was compressed and given other content', _try(lambda: bytes(A).hex()), d.hex()])
+	ck.append(['the list itself afterwards', [x.hex() for x in lst], [x.hex() for x in keep]])
+	# JSON: the value object, the decoded object
+	v = copy.deepcopy(c['v'])
+	A = Body(mimetype='application/json')
+	A.encode(v)
+	B = Body(mimetype='application/json')
+	B.encode(v)
+	first = bytes(A)
+	v['a'].append(3)
+	v['a'][2]['b'] = 'changed'
+	v['new'] = 1
+	ck.append(['json: octets after the encoded value object was changed', bytes(A).hex(), first.hex()])
+	ck.append(['json: decode() after the encoded value object was changed', _try(lambda: _jcanon(A.decode())), _jcanon(c['v'])])
+	r = A.decode()
+	r['a'].append('x')
+	r.clear()
+	ck.append(['json: decode() after the object returned by the previous decode() was changed', _try(lambda: _jcanon(A.decode())), _jcanon(c['v'])])
+	ck.append(['json: a second body encoded from the same value object', _try(lambda: _jcanon(B.decode())), _jcanon(c['v'])])
+	# form: dict argument
+	ps = [tuple(p) for p in c['ps']]
+	if all(ord(ch) < 256 for a, b in ps for ch in a + b) and not _low_unsafe(b''.join(a.encode('ISO8859-1') + b.encode('ISO8859-1') for a, b in ps), set(range(0x10, 0x100))):
+		arg = collections.OrderedDict(ps)
+		keep = list(arg.items())
+		A = Body(mimetype='application/x-www-form-urlencoded; charset=UTF-8')
+		A.encode(arg)
+		ck.append(['form: the mapping given to encode() afterwards', list(arg.items()), keep])
+		arg['zz-added'] = '1'
+		ck.append(['form: decode() after the mapping was changed', _try(lambda: [list(p) for p in A.decode()]), [list(p) for p in keep]])
+		r = A.decode()
+		ck.append(['form: decode() twice', _try(lambda: [list(p) for p in A.decode()]), [list(p) for p in r]])
+	# multipart: one part object twice in a list; one list for two bodies; decoded parts are separate objects
+	codec = lookup('multipart/mixed')
+	bd, bd2 = bytes.fromhex(c['bd']), bytes.fromhex(c['bd2'])
+
+	def wantp(parts):
+		out = []
+		for hs, content in parts:
+			f = {k.lower(): v for k, v in hs}
+			f.setdefault('content-type', codec.default_content_type.encode('ascii').hex())
+			out.append([sorted(f.items()), content])
+		return out
+
+	def gotp(bodies):
+		return [[sorted((k.lower(), v) for k, v in _items(p.headers)), bytes(p).hex()] for p in bodies]
+	parts = _part_bodies(c['parts'])
+	twice = [parts[0], parts[-1], parts[0]]
+	spec = [c['parts'][0], c['parts'][-1], c['parts'][0]]
+	A = Body()
+	A.mimetype = _mp_ct('mixed', bd)
+	A.encode(twice)
+	B = Body()
+	B.mimetype = _mp_ct('mixed', bd2)
+	B.encode(twice)
+	encA = bytes(A)
+	ck.append(['multipart: one part object twice in the list', _try(lambda: gotp(Body(encA, mimetype=bytes(A.mimetype)).decode())), wantp(spec)])
+	ck.append(['multipart: the same list under a second boundary', _try(lambda: gotp(Body(bytes(B), mimetype=bytes(B.mimetype)).decode())), wantp(spec)])
+	ck.append(['multipart: the part objects after two bodies were encoded from them', gotp(parts), gotp(_part_bodies(c['parts']))])
+	twice[0].headers['X-Mark'] = 'changed'
+	twice[0].set(b'changed content')
+	del twice[1:]
+	ck.append(['multipart: encoded body after the part objects and the list were changed', bytes(A).hex(), encA.hex()])
+	back = _try(lambda: Body(encA, mimetype=bytes(A.mimetype)).decode())
+	if isinstance(back, str):
+		ck.append(['multipart: decode', back, 'parts'])
+	else:
+		back[0].headers['X-Mark'] = 'changed'
+		back[0].headers.pop('Content-Type', None)
+		back[0].set(b'changed content')
+		back[0].content_encoding = fam
+		ck.append(['multipart: the other decoded parts after the first was changed', gotp(back[1:]), wantp(spec[1:])])
+		ck.append(['multipart: trailer / header objects of decoded parts are separate objects', [back[0].headers is back[2].headers, back[0].trailer is back[2].trailer, back[0].fd is back[2].fd], [False, False, False]])
+	# one media type element for two bodies
+	ct = _mp_ct('mixed', bd)
+	A, B = Body(), Body()
+	A.mimetype = ct
+	B.mimetype = ct
+	mtB = B.mimetype
+	mtB.boundary = bd2.decode('ISO8859-1')
+	B.mimetype = mtB
+	B.encoding = 'utf-16'
+	ck.append(['media type of a body after a second body given the same ContentType element was changed', bytes(A.mimetype).hex(), bytes(_mp_ct('mixed', bd)).hex()])
+	ck.append(['the ContentType element itself afterwards', bytes(ct).hex(), bytes(_mp_ct('mixed', bd)).hex()])
+	# message/http: two messages from one mapping / one Headers object / one Body
+	m = c['m']
+	fields = collections.OrderedDict((k, bytes.fromhex(v)) for k, v in m['hs'])
+	keep = list(fields.items())
+	http = lookup('message/http')
+	ref = http.encode(_http_build(m)).hex()
+	for name, arg in (('mapping', fields), ('Headers object', Headers(fields))):
+		m1, m2 = _http_build(dict(m, hs=[])), _http_build(dict(m, hs=[]))
+		m1.headers.update(arg)
+		m2.headers.update(arg)
+		m2.headers['X-Mark'] = 'changed'
+		for k in list(m2.headers.keys())[:1]:
+			m2.headers[k] = b'changed'
+		m2.body = b'changed'
+		ck.append(['message/http: message after a second one built from the same %s was changed' % name, _try(lambda: http.encode(m1).hex()), ref])
+	ck.append(['message/http: the mapping afterwards', list(fields.items()), keep])
+	enc = bytes.fromhex(ref)
+	d1, d2 = http.decode(enc), http.decode(enc)
+	d1.headers['X-Mark'] = 'changed'
+	d1.body = b'changed'
+	d1.body.content_encoding = fam
+	ck.append(['message/http: a second decode of the same octets after the first decoded message was changed', _try(lambda: http.encode(d2).hex()), ref])
+	shared = Body(d)
+	r1, r2 = Response(), Response()
+	r1.body = shared
+	r2.body = shared
+	r2.headers['Content-Encoding'] = fam
+	got2 = _deliver(r2, False)[0]
+	got1 = _deliver(r1, False)[0]
+	ck.append(['two responses given one Body: the coded one as delivered', got2, d.hex()])
+	ck.append(['two responses given one Body: the uncoded one, composed after the coded one, as delivered', got1, d.hex()])
+	ck.append(['the shared Body afterwards', _bstate(shared), fresh()])
+	return ck
+
+
+def _w5_refused(c):
+	"""(12) an operation that raises leaves the object as it was: the object is used again afterwards and compared with one on which the refused call was never made"""
+	from httoop import Body
+	from httoop.codecs import lookup
+	ck = []
+	d, junk, fam = bytes.fromhex(c['d']), bytes.fromhex(c['junk']), c['c']
+	t, bad, cs = c['t'], c['bad'], c['cs']
+	if not _encodable(t, cs):
+		t = 'ok'
+
+	def refuse(label, make, op, then, data=True):
+		"""make() twice; op on one of them must raise; afterwards both go through then(); state and result must agree"""
+		a, b = make(), make()
+		try:
+			op(a)
+			return    # not refused: whether it should be is not the subject here
+		except Exception:
+			pass
+		ck.append([label + ': object afterwards', _bstate(a) + ([_jcanon(a.data)] if data else []), _bstate(b) + ([_jcanon(b.data)] if data else [])])
+		ck.append([label + ': used again', _try(lambda: then(a)), _try(lambda: then(b))])
+
+	def text_body():
+		b = Body(mimetype='text/plain; charset=%s' % cs)
+		b.encode(t)
+		b.read(1)
+		return b
+
+	def again_text(b):
+		b.encode(t + t)
+		return [bytes(b).hex(), _jcanon(b.decode())]
+	if not _encodable(bad, cs):
+		refuse('encode(text outside the declared charset %s)' % cs, text_body, lambda b: b.encode(bad), again_text)
+		# set() drops the decoded value (.data) before it looks at the new content (observed on the unchanged tree, reported): octets, fields and position are compared
+		refuse('set(text outside the declared charset %s)' % cs, text_body, lambda b: b.set(bad), again_text, data=False)
+
+		def form_body():
+			b = Body(mimetype='application/x-www-form-urlencoded; charset=%s' % cs)
+			b.encode([('a', t), ('b', '')])
+			return b
+		refuse('form encode(value outside the declared charset %s)' % cs, form_body, lambda b: b.encode([('ok', 'ok'), ('a', bad)]), lambda b: [[list(p) for p in b.decode()], b.encode([('c', t)]), bytes(b).hex()])
+
+	def json_body():
+		b = Body(mimetype='application/json')
+		b.encode(c['v'])
+		return b
+
+	def again_json(b):
+		out = [_jcanon(b.decode())]
+		b.encode([c['v']])
+		return out + [bytes(b).hex()]
+	refuse('json encode(value that cannot be serialised)', json_body, lambda b: b.encode({'k': {1, 2}}), again_json)
+	refuse('json encode(circular value)', json_body, lambda b: b.encode(_circular()), again_json)
+	refuse('json decode() of octets that are no JSON document', lambda: Body(b'[1, 2', mimetype='application/json'), lambda b: b.decode(), lambda b: [b.decode(b'[1, 2]'), bytes(b).hex()])
+	refuse('json decode() of octets outside the declared charset', lambda: Body(b'"\xff"', mimetype='application/json; charset=UTF-8'), lambda b: b.decode(), lambda b: [b.decode(b'"x"'), bytes(b).hex()])
+	refuse('text decode() of octets outside the declared charset', lambda: Body(b'a\xff', mimetype='text/plain; charset=UTF-8'), lambda b: b.decode(), lambda b: [b.decode(b'ok'), bytes(b).hex()])
+	for how, op in (('set(closed file)', lambda b: b.set(_closed())), ('set(object that is not iterable)', lambda b: b.set(5)), ('set(closed temporary file)', lambda b: b.set(_closed(True)))):
+		refuse('json body: ' + how, json_body, op, again_json, data=False)
+
+	def coded_body(content):
+		def make():
+			b = Body(content)
+			b.content_encoding = fam
+			b.read(2)
+			return b
+		return make
+
+	def again_coded(b):
+		out = [_try(lambda: b.decompress() or 'no exception')]
+		b.set(_comp(fam, d))
+		b.content_encoding = fam
+		b.decompress()
+		return out + [bytes(b).hex(), repr(b.content_encoding)]
+	if _streams(fam, junk) is None or not junk:
+		if junk:
+			refuse('decompress() of octets that are no %s stream' % fam, coded_body(junk), lambda b: b.decompress(), again_coded)
+		ck.append(['decompress() after a refused decompress() on the same object', _try(lambda: again_coded(coded_body(junk or b'x')())[1:]), [d.hex(), 'None']])
+	# multipart
+	mt = 'multipart/mixed; boundary=%s' % W5_BD.decode('ascii')
+
+	def mp_body():
+		p = Body(d)
+		p.headers['X-N'] = '1'
+		b = Body(mimetype=mt)
+		b.encode([p])
+		return b
+
+	def again_mp(b):
+		parts = b.decode()
+		out = [[bytes(p).hex() for p in parts], [p.headers.get('X-N') for p in parts]]
+		q = Body(b'second')
+		b.encode(parts + [q])
+		return out + [[bytes(p).hex() for p in Body(bytes(b), mimetype=mt).decode()]]
+	if b'--' + W5_BD not in d:
+		refuse('multipart encode(list with a member that is no Body)', mp_body, lambda b: b.encode([Body(b'x'), 5]), again_mp, data=False)
+		refuse('multipart encode(object that is not iterable)', mp_body, lambda b: b.encode(5), again_mp, data=False)
+		for broken in (b'--' + W5_BD + b'\r\nbroken', b'junk--' + W5_BD + b'--', b'--' + W5_BD + b'\r\nX: y\r\n\r\ncontent--' + W5_BD + b'--'):
+			refuse('multipart decode() of a damaged body', lambda: Body(broken, mimetype=mt), lambda b: b.decode(), lambda b: [[bytes(p).hex() for p in b.decode(b'--' + W5_BD + b'\r\n\r\nx\r\n--' + W5_BD + b'--')], bytes(b).hex()], data=False)
+	# message/http
+	http = lookup('message/http')
+	good = http.encode(_http_build(c['m']))
+	for broken in (b'', b'nonsense', b'GET / HTTP/1.1', b'GET / HTTP/1.1\r\nHost: h', b'GET / HTTP/1.1\r\nnocolon\r\n\r\n', b'GET / HTTP/9.9\r\n\r\n'):
+		refuse('message/http decode() of a damaged message', lambda: Body(broken, mimetype='message/http'), lambda b: b.decode(), lambda b: [_mvalue(b.decode(good)), bytes(b).hex()], data=False)
+	return ck
+
+
+def _circular():
+	v = []
+	v.append(v)
+	return v
+
+
+def _closed(temp=False):
+	import tempfile
+	fd = tempfile.TemporaryFile() if temp else io.BytesIO(b'closed')
+	fd.close()
+	return fd
+
+
+def _w5_order(c):
+	"""(15) content, media type, coding of the body and Content-Encoding field set in every order: the receiving machine delivers the content"""
+	from httoop import Request, Response
+	req, fam, cs = c['req'], c['c'], c['cs']
+	text = c.get('text')
+	want = text.encode(cs) if text is not None else bytes.fromhex(c['d'])
+	mt = 'text/plain; charset=%s' % cs
+	ck = []
+	for variant in (0, 1, 2):
+		m = Request('POST', '/x') if req else Response()
+		if req:
+			m.headers['Host'] = 'h'
+		for step in c['perm']:
+			if step == 'content':
+				if variant == 2 and text is None:
+					m.body = [want[:3], want[3:]]
+				else:
+					m.body = text if text is not None else (want if variant == 0 else bytearray(want))
+			elif step == 'type':
+				if variant == 0:
+					m.body.mimetype = mt
+				elif variant == 1:
+					m.body.headers['Content-Type'] = mt
+				else:
+					m.body.mimetype = 'text/plain'
+					m.body.encoding = cs
+			elif step == 'coding':
+				# the body's own coding: needed for a request, derived from the field for a response
+				m.body.content_encoding = fam if variant != 1 else fam.encode('ascii')
+			elif step == 'field':
+				m.headers['Content-Encoding'] = fam
+		got, msg = _deliver(m, req, variant)
+		label = '%s, steps %s, variant %d' % ('request' if req else 'response', ' > '.join(c['perm']), variant)
+		ck.append([label + ': delivered body', got, want.hex()])
+		if msg is not None and text is not None:
+			ck.append([label + ': delivered body decoded', _try(lambda: _jcanon(msg.body.decode())), _jcanon(text)])
+	return ck
+
+
+def _w5_build(c):
+	"""(15)+(13) the same part / embedded message / coded body built in every order of API calls, by constructor argument or by attribute; the compression level as a class attribute"""
+	from httoop import Body, Request, Response
+	from httoop.codecs import lookup
+	ck = []
+	content = bytes.fromhex(c['content'])
+	bd = bytes.fromhex(c['bd'])
+	ctv = 'application/octet-stream'
+	fields = [('Content-Disposition', 'form-data; name="n"; filename="f.bin"'), ('X-Custom', 'a b  c')]
+
+	def p1():
+		p = Body(content, mimetype=ctv)
+		for k, v in fields:
+			p.headers[k] = v
+		return p
+
+	def p2():
+		p = Body()
+		for k, v in reversed(fields):
+			p.headers[k] = v
+		p.mimetype = ctv
+		p.set(content)
+		return p
+
+	def p3():
+		p = Body(mimetype=ctv)
+		p.set(bytearray(content))
+		p.headers.update(dict(fields))
+		return p
+
+	def p4():
+		p = Body([content[:5], content[5:]])
+		p.headers['Content-Type'] = ctv
+		for k, v in fields:
+			p.headers.setdefault(k, v)
+		return p
+	want = [[sorted([(k.lower(), v.encode('ascii').hex()) for k, v in fields] + [('content-type', ctv.encode('ascii').hex())]), content.hex()]]
+	if b'--' + bd not in content:
+		for name, make in (('constructor arguments, then fields', p1), ('fields, media type, then content', p2), ('constructor media type, set(bytearray), update(dict)', p3), ('list content, Content-Type field, setdefault', p4)):
+			def rt():
+				b = Body()
+				b.mimetype = _mp_ct('form-data', bd)
+				b.encode([make()])
+				b2 = Body(bytes(b))
+				b2.mimetype = _mp_ct('form-data', bd)
+				return [[sorted((k.lower(), v) for k, v in _items(p.headers)), bytes(p).hex()] for p in b2.decode()]
+			ck.append(['multipart part built by %s' % name, _try(rt), want])
+	# message/http: header fields before the body, the body before the header fields, body by constructor
+	m = c['m']
+	http = lookup('message/http')
+	ref = _try(lambda: http.encode(_http_build(m)).hex())
+	body = bytes.fromhex(m['body'])
+
+	def start(**kw):
+		return _http_start(m, **kw)
+
+	def m1():
+		msg = start()
+		msg.body = body
+		_mk_headers(m['hs'], msg.headers)
+		return msg
+
+	def m2():
+		msg = start(body=body)
+		for k, v in reversed(m['hs']):
+			msg.headers[k] = bytes.fromhex(v)
+		return msg
+
+	def m3():
+		msg = start(headers={k: bytes.fromhex(v) for k, v in m['hs']}, body=body)
+		return msg
+
+	def m4():
+		msg = start(headers={k: bytes.fromhex(v) for k, v in m['hs']})
+		msg.body = Body(body)
+		return msg
+	for name, make in (('body, then header fields', m1), ('body by constructor, header fields in the reverse order', m2), ('header fields and body by constructor', m3), ('header fields by constructor, message.body = Body(...)', m4)):
+		ck.append(['embedded message built by %s: same as header fields, then body' % name, _try(lambda: http.encode(make()).hex()), ref])
+		ck.append(['embedded message built by %s: decoded' % name, _try(lambda: _mvalue(http.decode(http.encode(make())))[1:]), _try(lambda: [_mvalue(_http_build(m))[1], sorted([k, v] for k, v in _items(_http_build(m).headers)), m['body']])])
+	# coding before content / content before coding; compress twice with the coding set in between
+	d, fam = bytes.fromhex(c['d']), c['c']
+
+	def c1():
+		b = Body()
+		b.content_encoding = fam
+		b.set(d)
+		b.compress()
+		return _decodes_to(fam, bytes(b))
+
+	def c2():
+		b = Body(d)
+		b.content_encoding = fam
+		b.compress()
+		return _decodes_to(fam, bytes(b))
+
+	def c3():
+		b = Body()
+		b.headers['Content-Encoding'] = fam
+		b.content_encoding = b.headers['Content-Encoding']
+		b.write(d)
+		b.compress()
+		return _decodes_to(fam, bytes(b))
+
+	def c4():
+		b = Body()
+		b.content_encoding = fam
+		b.set(_comp(fam, d))
+		b.decompress()
+		return bytes(b).hex()
+
+	def c5():
+		b = Body(_comp(fam, d))
+		b.content_encoding = fam
+		b.decompress()
+		return bytes(b).hex()
+	for name, f in (('coding, content, compress()', c1), ('content, coding, compress()', c2), ('field, coding, write(), compress()', c3), ('coding, coded content, decompress()', c4), ('coded content, coding, decompress()', c5)):
+		ck.append(['body: %s' % name, _try(f), d.hex()])
+	# the compression level is a class attribute of the gzip codec: every level is lossless
+	gz = lookup(MIME[GZ])
+	old = gz.compression_level
+	try:
+		gz.compression_level = c['level']
+		ck.append(['gzip at compression level %d (class attribute): compress()' % c['level'], _try(lambda: c2() if fam == GZ else _decodes_to(GZ, gz.encode(d))), d.hex()])
+		r = Response()
+		r.body = d
+		r.headers['Content-Encoding'] = GZ
+		ck.append(['gzip at compression level %d (class attribute): through the wire' % c['level'], _deliver(r, False)[0], d.hex()])
+	finally:
+		gz.compression_level = old
+	return ck
+
+
+_W5 = {'ctor': _w5_ctor, 'types': _w5_types, 'args': _w5_args, 'alias': _w5_alias, 'refused': _w5_refused, 'order': _w5_order, 'build': _w5_build}
+W5_NAME = {'ctor': 'text content and a media type that declares a charset, handed over through every way of the API (configuration by constructor argument / attribute)',
+	'types': 'the same octets as every type of content object / argument', 'args': 'values, pairs and parts as every container type, order kept',
+	'alias': 'objects built from the same argument object share no state', 'refused': 'a refused operation leaves the object as it was',
+	'order': 'content, media type and coding set in every order, through the wire', 'build': 'the same object built in every order of API calls'}
+
+
+def _oracle_w5(c, o):
+	for label, got, want in o['checks']:
+		if got != want:
+			return '%s [w5 %s]: %s: %s, expected %s' % (W5_NAME[c['s']], c['s'], label, str(got)[:160], str(want)[:160])
+	return None
+
+
 # ------------------------------------------------------------------ Coq literals
 def _hdrs(items):
 	return L([P(X(k.encode('ascii')), X(bytes.fromhex(v))) for k, v in items], '(bytes * bytes)')
@@ -1652,6 +2814,8 @@ def _is_escape(o):
 
 
 def coq_case(c, o):
+	if c.get('oo') or c['k'] == 'w5':
+		return None    # fifth-wave inputs marked oracle-only (large or numerous)
 	if len(c.get('d', '')) > 18000:
 		return None    # a single list literal of more than ~30k elements overflows Coq's stack: oracle-only
 	t = _coq_case(c, o)
@@ -1860,6 +3024,8 @@ def oracle(c, o):
 		if o['fresh'] != [[x] for x in want]:
 			return 'coded message on a fresh machine: delivered %r, sent %r' % (o['fresh'], want)
 		return None
+	if k == 'w5':
+		return _oracle_w5(c, o)
 	if k == 'state':
 		for label, got, want in o['checks']:
 			if got != want:
@@ -1907,6 +3073,12 @@ def oracle(c, o):
 			want.setdefault('Content-Type', o['default'].encode('ascii').hex())
 			if dict(bhs) != want:
 				return '%s: header fields of part %d changed: %r -> %r' % (cls, i, whs, bhs)
+		if c.get('strict'):
+			# the expectation taken from the case itself (not from what the part objects report): values octet for octet, parts in the order given
+			given = [[_lower_fields(hs, o['default']), content] for hs, content in c['ps']]
+			got = [[_lower_fields(hs), content] for hs, content in o['back']]
+			if got != given:
+				return '%s: parts are not returned as given, in the order given: %r -> %r' % (cls, given, got)
 		return None
 	if k == 'mp_enc':
 		if _is_escape(o):
@@ -1931,16 +3103,29 @@ def oracle(c, o):
 			return '%s: header fields changed: %r -> %r' % (cls, o['hs'], b['hs'])
 		if b['body'] != c['body']:
 			return '%s: body changed: %s -> %s' % (cls, c['body'][:60], b['body'][:60])
+		if c.get('strict') and _lower_fields(b['hs']) != _lower_fields(c['hs']):
+			return '%s: header field values are not returned as given (members of a list in the order given): %r -> %r' % (cls, c['hs'], b['hs'])
 		return None
 	if _is_escape(o) and k not in ('http_dec', 'mp_dec', 'body_dec', 'codec_dec'):
 		return '%s: unexpected exception %s' % (k, o)
 	return None
 
 
+def _lower_fields(hs, default=None):
+	out = {k.lower(): v for k, v in hs}
+	if default is not None:
+		out.setdefault('content-type', default.encode('ascii').hex())
+	return out
+
+
 def _oracle_written(c, o):
 	"""a multipart body / an embedded message written by another sender (names in another letter case, other field order and spacing) is read as what was written"""
 	def fields(hs, default=None):
-		out = {k.lower(): bytes.fromhex(v).strip().hex() for k, v in hs}
+		out = {}
+		for k, v in hs:
+			# field lines of one name, adjacent or not, are one field whose value is the values joined by ", " in the order received (RFC 7230 3.2.2)
+			v = bytes.fromhex(v).strip()
+			out[k.lower()] = (bytes.fromhex(out[k.lower()]) + b', ' + v).hex() if k.lower() in out else v.hex()
 		if default is not None:
 			out.setdefault('content-type', default.encode('ascii').hex())
 		return out
@@ -2015,7 +3200,7 @@ def nontrivial(c, o):
 	cls = 'err:' + str(o.get('err') or o.get('derr')) if (o.get('err') or o.get('derr')) else 'ok'
 	if k in ('boundary', 'plain_dec', 'json_dec'):
 		return (k, c.get('cs'), c.get('bd') or c.get('d'), o.get('ok'))
-	if k in ('wire_rf', 'wire_seq', 'state'):
+	if k in ('wire_rf', 'wire_seq', 'state', 'w5'):
 		return (k, jdump_key(c), cls)
 	return (k, c.get('c'), c.get('cs'), c.get('d'), c.get('bd'), repr(c.get('ps')), repr(c.get('v')), c.get('t'), repr(c.get('hs')), c.get('body'), cls)
 
